@@ -135,7 +135,7 @@ string XMLWriter::getChanPriority() const
  * an with the "data" content. */
 void XMLWriter::label(const char* kind, string data, int x, int y)
 {
-    if (data == "1") {
+    if (data == "1" && strcmp(kind, "exponentialrate") != 0) {  // the default guard, update and weight
         return;
     }
     // TODO: fix the strg conversion instead of manipulating strings
@@ -302,10 +302,14 @@ void XMLWriter::labels(int x, int y, const edge_t& edge)
 {
     string str;
     if (edge.select.get_size() > 0) {
-        str = edge.select[0].get_name() + " : ";
-        if (edge.select[0].get_type().size() > 0 && edge.select[0].get_type()[0].size() > 0) {
-            str += edge.select[0].get_type()[0].get_label(0);
-        }  // else ? should not happen
+        for (uint32_t i = 0; i < edge.select.get_size(); ++i) {
+            type_t type = edge.select[i].get_type();
+            if (type.get_kind() == CONSTANT && type.size() == 1)  // select binders are implicitly constant
+                type = type.get(0);
+            if (i > 0)
+                str += ", ";
+            str += edge.select[i].get_name() + " : " + type.declaration();
+        }
         label("select", str, x, y - 32);
     }
     if (!edge.guard.empty()) {
@@ -316,6 +320,9 @@ void XMLWriter::labels(int x, int y, const edge_t& edge)
     }
     if (!edge.assign.empty()) {
         label("assignment", edge.assign.str(), x, y + 16);
+    }
+    if (!edge.prob.empty()) {
+        label("probability", edge.prob.str(), x, y + 32);
     }
 }
 
